@@ -206,7 +206,7 @@ func oracleMemCase(t *testing.T, lines [][]string) string {
 			}
 			synctest.Wait()
 		}()
-		r = newMemRun()
+		r = newMemRun(lines[0][3:]...)
 		cur := map[string]mobj{}
 		base := map[string]map[string]string{}
 		contents := func(ns string) map[string]string {
